@@ -66,44 +66,59 @@ func (m *MonC08) OnReq(w *World, r *Req) {
 			if !ok {
 				continue
 			}
-			// the incoming revision of this handover: the next newer revision of the archived one
-			var newest store.Obj
+			// the incoming revision(s) of this handover: a revision may be archived because a
+			// newer one is Available (then those are what takes over), or because it shares
+			// nothing with the next newer active revision (then that one is)
+			var newer, available []store.Obj
 			xr := store.Int(set, "status", "revision")
 			for _, s := range setsOfDeployment(w.Mgmt.Objs, od) {
 				sr := store.Int(s, "status", "revision")
-				if store.Str(s, "spec", "lifecycleState") == "Archived" || store.Deleting(s) {
-					continue // a tombstone takes nothing over
+				if sr <= xr || store.Str(s, "spec", "lifecycleState") == "Archived" || store.Deleting(s) {
+					continue // older, or a tombstone that takes nothing over
 				}
-				if sr > xr && (newest == nil || sr < store.Int(newest, "status", "revision")) {
-					newest = s
+				newer = append(newer, s)
+				if CondTrue(s, "Available") {
+					available = append(available, s)
 				}
 			}
-			if newest == nil {
+			if len(newer) == 0 {
 				continue
+			}
+			incoming := available
+			if len(incoming) == 0 {
+				next := newer[0]
+				for _, s := range newer {
+					if store.Int(s, "status", "revision") < store.Int(next, "status", "revision") {
+						next = s
+					}
+				}
+				incoming = []store.Obj{next}
 			}
 			m.touch()
 			k := r.Key()
-			for _, so := range SpecObjects(newest, w.sliceLookup(newest)) {
-				soCluster := "mgmt"
-				if so.Class == "hosted-cluster" {
-					soCluster = "hosted"
-				}
-				if soCluster == r.Cluster && w.normKey(r.Cluster, so.Key) == k {
-					cause := w.Taint[r.Cluster+"|"+k.String()]
-					if cause == "" {
-						cause = w.Taint["run"]
+			for _, newest := range incoming {
+				for _, so := range SpecObjects(newest, w.sliceLookup(newest)) {
+					soCluster := "mgmt"
+					if so.Class == "hosted-cluster" {
+						soCluster = "hosted"
 					}
-					if cause == "" {
-						cause = "unreported-control"
-						for _, c := range controllerOfList(set) {
-							if c.matches(k) {
-								cause = "reported-control"
+					if soCluster == r.Cluster && w.normKey(r.Cluster, so.Key) == k {
+						cause := w.Taint[r.Cluster+"|"+k.String()]
+						if cause == "" {
+							cause = w.Taint["run"]
+						}
+						if cause == "" {
+							cause = "unreported-control"
+							for _, c := range controllerOfList(set) {
+								if c.matches(k) {
+									cause = "reported-control"
+								}
 							}
 						}
+						w.Report(Violation{Property: "C08", Rule: "shared-object-deleted", Sig: shortSite(r.Site) + "/" + cause + "/" + causeTag(newest), Seq: r.Seq,
+							Msg: fmt.Sprintf("teardown of archived %s deleted %s which the incoming revision %s also lists", store.Str(set, "metadata", "name"), k, store.Str(newest, "metadata", "name"))})
+						return
 					}
-					w.Report(Violation{Property: "C08", Rule: "shared-object-deleted", Sig: shortSite(r.Site) + "/" + cause + "/" + causeTag(newest), Seq: r.Seq,
-						Msg: fmt.Sprintf("teardown of archived %s deleted %s which the next newer revision %s also lists", store.Str(set, "metadata", "name"), k, store.Str(newest, "metadata", "name"))})
-					return
 				}
 			}
 		}
